@@ -51,6 +51,12 @@ def _module(mod, unit_name, per, naive):
                 bounds="all i64 / all u64 counts; all non-leap UTC date-times for serialize; serde framework abstracted (visitor called directly, Serializer methods return what they were given); day-number kernels via their C01 contracts",
                 outside="serde_json / bincode themselves; error message formatting (closures building the error are not executed)")
     def ob(o):
+        # all inputs and calls first, then the checks: a failing check must find the complete input tuple and output
+        # vector for its native replay
+        later = []
+        _claim = lambda *a, **k: later.append(lambda: o.claim(*a, **k))
+        _no_panic = lambda *a, **k: later.append(lambda: o.no_panic(*a, **k))
+        _reachable = lambda *a, **k: later.append(lambda: o.reachable(*a, **k))
         c02.use_contracts(o)
         ser_contracts(o)
         o.set_tyenv(Tz="Utc")
@@ -64,13 +70,13 @@ def _module(mod, unit_name, per, naive):
         s = v.e / per
         sub = v.e - s * per
         day = s / DAY + EPOCH
-        o.no_panic()
-        o.reachable("i64_ok_negative", z3.And(ok, v.e < 0))
+        _no_panic()
+        _reachable("i64_ok_negative", z3.And(ok, v.e < 0))
         if per != G:
-            o.reachable("i64_err", z3.Not(ok))
+            _reachable("i64_err", z3.Not(ok))
         flat = [z3.If(ok, 1, 0), z3.If(ok, Y, 0), z3.If(ok, O, 0), z3.If(ok, tsec, 0), z3.If(ok, tfrac, 0)]
-        o.claim("visit_i64_ok_iff_representable", ok == z3.And(day >= LO, day <= HI))
-        o.claim("visit_i64_instant", z3.Implies(ok, z3.And(dayno(Y, O) == day, tsec == s % DAY, tfrac == sub * (G // per))))
+        _claim("visit_i64_ok_iff_representable", ok == z3.And(day >= LO, day <= HI))
+        _claim("visit_i64_instant", z3.Implies(ok, z3.And(dayno(Y, O) == day, tsec == s % DAY, tfrac == sub * (G // per))))
         # --- visit_u64
         u = o.input("u", "u64")
         r2 = o.call_named(rf"^{path}::<impl at [^>]*>::visit_u64$", vis, u, name="visit_u64")
@@ -80,14 +86,14 @@ def _module(mod, unit_name, per, naive):
         s2 = u.e / per
         sub2 = u.e - s2 * per
         day2 = s2 / DAY + EPOCH
-        o.no_panic("no_panic_u64")
+        _no_panic("no_panic_u64")
         if per != G:
-            o.reachable("u64_err_huge", z3.And(z3.Not(ok2), u.e > I64MAX))
+            _reachable("u64_err_huge", z3.And(z3.Not(ok2), u.e > I64MAX))
         else:
-            o.reachable("u64_ok_huge", z3.And(ok2, u.e > I64MAX))
+            _reachable("u64_ok_huge", z3.And(ok2, u.e > I64MAX))
         flat += [z3.If(ok2, 1, 0), z3.If(ok2, Y2, 0), z3.If(ok2, O2, 0), z3.If(ok2, tsec2, 0), z3.If(ok2, tfrac2, 0)]
-        o.claim("visit_u64_ok_iff_representable", ok2 == z3.And(day2 >= LO, day2 <= HI))
-        o.claim("visit_u64_instant", z3.Implies(ok2, z3.And(dayno(Y2, O2) == day2, tsec2 == s2 % DAY, tfrac2 == sub2 * (G // per))))
+        _claim("visit_u64_ok_iff_representable", ok2 == z3.And(day2 >= LO, day2 <= HI))
+        _claim("visit_u64_instant", z3.Implies(ok2, z3.And(dayno(Y2, O2) == day2, tsec2 == s2 % DAY, tfrac2 == sub2 * (G // per))))
         # --- serialize: any non-leap UTC date-time given by (year, ordinal, second of day, fraction)
         yy = o.input("sy", "i32")
         oo = o.input("so", "u32")
@@ -100,33 +106,35 @@ def _module(mod, unit_name, per, naive):
         w = o.call_named(rf"^{path}::serialize$", o.ref(val), OpaqueV("serializer"), name="serialize")
         secs = (dayno(yy.e, oo.e) - EPOCH) * DAY + ts.e
         exact = secs * per + tf.e / (G // per)
-        o.no_panic("no_panic_ser")
+        _no_panic("no_panic_ser")
         wok = w.disc == 0
         written = w.payload[0][0]
         if per == G:
             fits = z3.And(exact >= -(1 << 63), exact <= I64MAX)
-            o.reachable("ser_err", z3.Not(wok))
-            o.claim("serialize_ok_iff_fits", wok == fits)
+            _reachable("ser_err", z3.Not(wok))
+            _claim("serialize_ok_iff_fits", wok == fits)
         else:
-            o.claim("serialize_always_ok", wok)
-        o.claim("serialize_writes_exact_timestamp", z3.Implies(wok, z3.And(written.fields[0].e == 0, written.fields[1].e == exact)))
+            _claim("serialize_always_ok", wok)
+        _claim("serialize_writes_exact_timestamp", z3.Implies(wok, z3.And(written.fields[0].e == 0, written.fields[1].e == exact)))
         # --- option variant
         some = EnumV("Option", 1, {1: [val]})
         none = EnumV("Option", 0, {})
         w1 = o.call_named(rf"^{path}_option::serialize$", o.ref(some), OpaqueV("serializer"), name="serialize_some")
         w0 = o.call_named(rf"^{path}_option::serialize$", o.ref(none), OpaqueV("serializer"), name="serialize_none")
-        o.no_panic("no_panic_opt")
+        _no_panic("no_panic_opt")
         def wr(w):
             okw = w.disc == 0
             c = w.payload[0][0]
             return [z3.If(okw, 1, 0), z3.If(okw, c.fields[0].e, 0), z3.If(okw, c.fields[1].e, 0)]
         o.flat = flat + wr(w) + wr(w1) + wr(w0)
-        o.claim("option_none", z3.And(w0.disc == 0, w0.payload[0][0].fields[0].e == 1))
-        o.claim("option_some", z3.Implies(w1.disc == 0, z3.And(w1.payload[0][0].fields[0].e == 2, w1.payload[0][0].fields[1].e == exact)))
+        _claim("option_none", z3.And(w0.disc == 0, w0.payload[0][0].fields[0].e == 1))
+        _claim("option_some", z3.Implies(w1.disc == 0, z3.And(w1.payload[0][0].fields[0].e == 2, w1.payload[0][0].fields[1].e == exact)))
         if per == G:
-            o.claim("option_some_ok_iff_fits", (w1.disc == 0) == z3.And(exact >= -(1 << 63), exact <= I64MAX))
+            _claim("option_some_ok_iff_fits", (w1.disc == 0) == z3.And(exact >= -(1 << 63), exact <= I64MAX))
         else:
-            o.claim("option_some_ok", w1.disc == 0)
+            _claim("option_some_ok", w1.disc == 0)
+        for f in later:
+            f()
     ob.__name__ = "c20_m_" + tag
     return ob
 
